@@ -209,7 +209,7 @@ CHECKS["C14"] = dict(
     rule="one run = one seeded op history for one (element type, N) instantiation. non-trivial = at least one operation offered more than the remaining room; "
          "distinct = distinct hash of the op trace",
     simtime_units="container operations",
-    probes=["push_when_full", "ctor_2N_elements", "ctor_more_than_N_elements", "resize_beyond_N", "assign_over_nonempty", "self_assign", "erase", "ctor_ilist", "split", "split_token_longer_than_capacity", "split_more_tokens_than_capacity", "append_with_throwing_constructor"],
+    probes=["push_when_full", "ctor_2N_elements", "ctor_more_than_N_elements", "resize_beyond_N", "assign_over_nonempty", "self_assign", "erase", "ctor_ilist", "split", "split_token_longer_than_capacity", "split_more_tokens_than_capacity", "append_with_throwing_constructor", "capacity_256_filled"],
     assumptions=["single caller", "c_str() sources are NUL terminated"],
 )
 
